@@ -26,7 +26,9 @@ PANICKY = ("split_at", "split_at_mut", "split_off", "swap_remove", "copy_from_sl
            "borrow_mut", "from_digit", "to_digit", "replace_range", "insert_str", "char_at", "abs", "pow", "repeat", "swap")
 PANICKY_EXACT = {"std::vec::Vec::<T, A>::remove", "std::vec::Vec::<T, A>::insert", "std::vec::Vec::<T, A>::drain", "std::string::String::remove",
                  "std::string::String::insert", "std::string::String::drain", "std::string::String::truncate",
-                 "std::cell::RefCell::<T>::borrow", "std::collections::VecDeque::<T, A>::remove"}
+                 "std::cell::RefCell::<T>::borrow", "std::collections::VecDeque::<T, A>::remove",
+                 # println! / eprintln! panic when the stream cannot be written (closed pipe, full device)
+                 "std::io::_print", "std::io::_eprint"}
 
 
 def sites(b):
